@@ -1,7 +1,7 @@
 """C18 — dataset split, batching and one-hot encoding lose or misalign no sample.
 
-Obligations : coq/Props/C18.v (split partition / sizes / pairing / order, loader batches / re-iterability /
-              transform, one-hot unit vectors; model State/Data.v)
+Obligations : coq/Props/C18.v (split partition / sizes / pairing / order, floor rule range on rationals and on the binary64
+              product (Flocq), loader batches / re-iterability / transform, one-hot unit vectors; model State/Data.v)
 Ties        : K  split_dataset on every (n <= 12, fraction grid, val grid, shuffle off / seeds) vs the model, exactly
               K  DataLoader event histories (for loops, abandoned loops, interleaved iterators, len, indexing) for
                  every n <= 12 and batch size 1..n+2, with and without a recording transform, vs the model
@@ -258,6 +258,12 @@ def part_split(ctx):
         key = (d["fraction"], d["n"])
         if key not in seen:
             seen.add(key); fr.append(d)
+    # a wider arithmetic-only survey (no implementation run): fractions i/100, n <= 200
+    wide = [(i, n) for i in range(101) for n in range(1, 201) if float_floor(i / 100, n) != (i * n) // 100]
+    ctx.extra["float_vs_exact_fraction_survey_i/100_n<=200"] = {
+        "pairs": 101 * 200, "differ": len(wide),
+        "examples": [{"fraction": "%d/100" % i, "n": n, "float_rule": float_floor(i / 100, n), "exact_rational": (i * n) // 100} for i, n in wide[:8]],
+        "all_within_[0,n]": all(0 <= float_floor(i / 100, n) <= n for i in range(101) for n in range(1, 201))}
     ctx.extra["float_product_floors_differently_from_exact_fraction"] = {
         "count": len(fr), "examples": fr[:12],
         "note": "not a violation: the property's floor rule is applied to the binary64 product test_split*n, as the code does"}
